@@ -216,13 +216,17 @@ fn outcome(input: &'static str, op: Option<(ComparisonOp, usize)>, scheme: &Sche
     }
 }
 
-/// One obligation per left-hand type.  `$eff` is the effective type (element type
-/// under `[*]`), `$in/$ord/$int/$bytes` the admissibility of the four operator
-/// classes for that type per the table at the top.
-macro_rules! operator_matrix {
-    ($name:ident, $decl:expr, $each:expr, $eff:expr, $in:expr, $ord:expr, $int:expr, $bytes:expr) => {
+/// One cell of the matrix = one obligation (measured: one call of `lex_with_lhs` costs
+/// 80-130 s, almost all of it the drop glue of the left-hand side on the error path,
+/// which CBMC explores through the function-call variant of `IdentifierExpr`; a
+/// symbolic operator covering a whole row did not finish in 500 s).
+/// The text is ` ~ !`: the contract stub of the operator lexer consumes the one-byte
+/// operator and hands over `$op` - the spelling itself is (A)'s business.
+macro_rules! cell {
+    ($name:ident, $decl:expr, $each:expr, $eff:expr, $op:expr, $admissible:expr) => {
         #[kani::proof]
-        #[kani::unwind(6)]
+        #[kani::unwind(4)]
+        #[kani::solver(minisat)]
         #[kani::stub(crate::rhs_types::regex::Regex::new, crate::ast::field_expr::verif_kani::c04::regex_new__must_not_be_reached)]
         #[kani::stub(std::mem::drop, crate::ast::field_expr::verif_kani::c04::mem_drop__leak)]
         #[kani::stub(<crate::ast::field_expr::ComparisonOp as crate::lex::Lex>::lex, crate::ast::field_expr::verif_kani::c04::comparison_op_lex__contract)]
@@ -232,28 +236,96 @@ macro_rules! operator_matrix {
             unsafe {
                 LHS_TYPE = Some($eff);
             }
-            let want = |admissible: bool| if admissible { Outcome::LiteralError } else { Outcome::Unsupported };
-            let s = &scheme;
-            assert!(outcome(" in !", Some((Op::In, 2)), s, $each, $eff) == want($in), "in");
-            assert!(outcome(" == !", Some((Op::Ordering(OrderingOp::Equal), 2)), s, $each, $eff) == want($ord), "==");
-            assert!(outcome(" != !", Some((Op::Ordering(OrderingOp::NotEqual), 2)), s, $each, $eff) == want($ord), "!=");
-            assert!(outcome(" >= !", Some((Op::Ordering(OrderingOp::GreaterThanEqual), 2)), s, $each, $eff) == want($ord), ">=");
-            assert!(outcome(" <= !", Some((Op::Ordering(OrderingOp::LessThanEqual), 2)), s, $each, $eff) == want($ord), "<=");
-            assert!(outcome(" > !", Some((Op::Ordering(OrderingOp::GreaterThan), 1)), s, $each, $eff) == want($ord), ">");
-            assert!(outcome(" < !", Some((Op::Ordering(OrderingOp::LessThan), 1)), s, $each, $eff) == want($ord), "<");
-            assert!(outcome(" & !", Some((Op::Int(IntOp::BitwiseAnd), 1)), s, $each, $eff) == want($int), "&");
-            assert!(outcome(" ~ !", Some((Op::Bytes(BytesOp::Matches), 1)), s, $each, $eff) == want($bytes), "~");
-            // the three word-only operators: the stub consumes the word's length, so a
-            // one-letter stand-in keeps the inputs short; the spelling is (A)'s business
-            assert!(outcome(" c !", Some((Op::Bytes(BytesOp::Contains), 1)), s, $each, $eff) == want($bytes), "contains");
-            assert!(outcome(" w !", Some((Op::Bytes(BytesOp::Wildcard), 1)), s, $each, $eff) == want($bytes), "wildcard");
-            assert!(outcome(" s !", Some((Op::Bytes(BytesOp::StrictWildcard), 1)), s, $each, $eff) == want($bytes), "strict wildcard");
-            // no operator at all is a parse error, but not a typing error
-            assert!(outcome(" !", None, s, $each, $eff) == Outcome::LiteralError, "no operator");
-            kani::cover!(true, "matrix completed");
+            let op: Option<ComparisonOp> = $op;
+            let got = outcome(" ~ !", op.map(|op| (op, 1)), &scheme, $each, $eff);
+            let want = if $admissible { Outcome::LiteralError } else { Outcome::Unsupported };
+            assert!(got == want, "operator / left-type compatibility per the typing table");
+            kani::cover!(true, "cell decided");
             std::mem::forget(scheme);
         }
     };
 }
 
-operator_matrix!(operator_matrix__int, Type::Int, false, Type::Int, true, true, true, false);
+/// One row = one left-hand type; `$in/$ord/$int/$bytes` is the admissibility of the four
+/// operator classes for the EFFECTIVE type `$eff` per the table at the top.  "No
+/// operator" is a parse error but never a typing error.
+macro_rules! operator_matrix {
+    ($row:ident, $decl:expr, $each:expr, $eff:expr, $in:expr, $ord:expr, $int:expr, $bytes:expr) => {
+        pub(crate) mod $row {
+            use super::*;
+            cell!(op_in, $decl, $each, $eff, Some(Op::In), $in);
+            cell!(op_eq, $decl, $each, $eff, Some(Op::Ordering(OrderingOp::Equal)), $ord);
+            cell!(op_ne, $decl, $each, $eff, Some(Op::Ordering(OrderingOp::NotEqual)), $ord);
+            cell!(op_ge, $decl, $each, $eff, Some(Op::Ordering(OrderingOp::GreaterThanEqual)), $ord);
+            cell!(op_le, $decl, $each, $eff, Some(Op::Ordering(OrderingOp::LessThanEqual)), $ord);
+            cell!(op_gt, $decl, $each, $eff, Some(Op::Ordering(OrderingOp::GreaterThan)), $ord);
+            cell!(op_lt, $decl, $each, $eff, Some(Op::Ordering(OrderingOp::LessThan)), $ord);
+            cell!(op_bitwise_and, $decl, $each, $eff, Some(Op::Int(IntOp::BitwiseAnd)), $int);
+            cell!(op_contains, $decl, $each, $eff, Some(Op::Bytes(BytesOp::Contains)), $bytes);
+            cell!(op_matches, $decl, $each, $eff, Some(Op::Bytes(BytesOp::Matches)), $bytes);
+            cell!(op_wildcard, $decl, $each, $eff, Some(Op::Bytes(BytesOp::Wildcard)), $bytes);
+            cell!(op_strict_wildcard, $decl, $each, $eff, Some(Op::Bytes(BytesOp::StrictWildcard)), $bytes);
+            cell!(op_none, $decl, $each, $eff, None, true);
+        }
+    };
+}
+
+//                row               declared type                       [*]    effective type                      in     ord    int    bytes
+operator_matrix!(row_int,           Type::Int,                          false, Type::Int,                          true,  true,  true,  false);
+operator_matrix!(row_ip,            Type::Ip,                           false, Type::Ip,                           true,  true,  false, false);
+operator_matrix!(row_bytes,         Type::Bytes,                        false, Type::Bytes,                        true,  true,  false, true);
+operator_matrix!(row_array_int,     Type::Array(Type::Int.into()),      false, Type::Array(Type::Int.into()),      false, false, false, false);
+operator_matrix!(row_map_bytes,     Type::Map(Type::Bytes.into()),      false, Type::Map(Type::Bytes.into()),      false, false, false, false);
+// `[*]`: the element type decides
+operator_matrix!(row_array_int_each, Type::Array(Type::Int.into()),     true,  Type::Int,                          true,  true,  true,  false);
+operator_matrix!(row_map_bytes_each, Type::Map(Type::Bytes.into()),     true,  Type::Bytes,                        true,  true,  false, true);
+operator_matrix!(row_array_array_int_each, Type::Array(Type::Array(Type::Int.into()).into()), true, Type::Array(Type::Int.into()), false, false, false, false);
+
+// ---------------------------------------------------------------------------
+// Bool and containers of Bool: the bare left side IS the comparison.
+
+macro_rules! bare_boolean {
+    ($name:ident, $decl:expr, $each:expr, $eff:expr, $want:expr, $reported:expr) => {
+        #[kani::proof]
+        #[kani::unwind(4)]
+        #[kani::solver(minisat)]
+        #[kani::stub(crate::rhs_types::regex::Regex::new, crate::ast::field_expr::verif_kani::c04::regex_new__must_not_be_reached)]
+        #[kani::stub(std::mem::drop, crate::ast::field_expr::verif_kani::c04::mem_drop__leak)]
+        #[kani::stub(<crate::ast::field_expr::ComparisonOp as crate::lex::Lex>::lex, crate::ast::field_expr::verif_kani::c04::comparison_op_lex__contract)]
+        #[kani::stub(<crate::ast::index_expr::IndexExpr as crate::types::GetType>::get_type, crate::ast::field_expr::verif_kani::common::index_expr_get_type__contract)]
+        fn $name() {
+            let scheme = scheme_of(&[($decl, false)], true);
+            unsafe {
+                LHS_TYPE = Some($eff);
+            }
+            // an operator follows in the text: it must be left alone
+            let got = outcome(" ~ !", Some((Op::Ordering(OrderingOp::Equal), 1)), &scheme, $each, $reported);
+            assert!(got == $want, "a boolean (or container of booleans) left side takes no operator");
+            kani::cover!(true, "case decided");
+            std::mem::forget(scheme);
+        }
+    };
+}
+
+bare_boolean!(bare_boolean__bool, Type::Bool, false, Type::Bool, Outcome::IsTrueNothingConsumed, Type::Bool);
+bare_boolean!(bare_boolean__array_bool, Type::Array(Type::Bool.into()), false, Type::Array(Type::Bool.into()), Outcome::IsTrueNothingConsumed, Type::Bool);
+bare_boolean!(bare_boolean__map_bool, Type::Map(Type::Bool.into()), false, Type::Map(Type::Bool.into()), Outcome::IsTrueNothingConsumed, Type::Bool);
+bare_boolean!(bare_boolean__array_bool_each, Type::Array(Type::Bool.into()), true, Type::Bool, Outcome::IsTrueNothingConsumed, Type::Bool);
+bare_boolean!(bare_boolean__map_bool_each, Type::Map(Type::Bool.into()), true, Type::Bool, Outcome::IsTrueNothingConsumed, Type::Bool);
+// f[*] over Array(Array(Bool)) would be an array of boolean arrays: refused, naming that type
+bare_boolean!(
+    bare_boolean__array_array_bool_each_is_refused,
+    Type::Array(Type::Array(Type::Bool.into()).into()),
+    true,
+    Type::Array(Type::Bool.into()),
+    Outcome::Unsupported,
+    Type::Array(Type::Array(Type::Bool.into()).into())
+);
+bare_boolean!(
+    bare_boolean__map_array_bool_each_is_refused,
+    Type::Map(Type::Array(Type::Bool.into()).into()),
+    true,
+    Type::Array(Type::Bool.into()),
+    Outcome::Unsupported,
+    Type::Array(Type::Array(Type::Bool.into()).into())
+);
